@@ -8,15 +8,20 @@
    files.  Every operation looks at a manifest object only through [dec_manifest]; so we define a
    simulation [sim_art c1 c2 fuel a1 a2] between (cache, artifact) pairs and show
 
-     C20_checkout_equal    checkout_node gives EQUAL results on both sides
-     C20_expand_equal      the logical tree a checksum stands for is the same
-     C20_status_equal      status trees agree up to the directory checksums inside the St nodes
-     C20_st_cm_equal, C20_status_short_equal
-     C20_old_contents      the manifest a commit starts from has the same keys, sim children
-     C20_gather_equal      push/fetch: same file objects, same number of manifest objects
-     C20_rewrite_sim       one rewriting step establishes the simulation
-     C20_rw_sim            closure over a whole tree, any subset of manifests in the old schema
-     C20_commit_on_top     commit on top of sim artifacts: same node, same recorded checksum
+     C20_checkout_equal      checkout_node gives EQUAL results (any pre-existing entry, both strategies)
+     C20_expand_equal        the logical tree a checksum stands for is the same
+     C20_status_equal        status trees agree up to the directory checksums inside the St nodes
+     C20_st_cm_equal, C20_status_ok_iff, C20_status_short_equal
+     C20_old_contents        the manifest a commit starts from has the same keys, related children
+     C20_gather_equal        push / fetch: same file objects, same number of manifest objects
+     C20_rewrite_sim(_old)   one rewriting step establishes the simulation
+     C20_rw_sim              closure over a whole tree: any subset of manifests in either schema
+     C20_commit_on_top       commit on top (complete histories, [sim_full]): same resulting
+                             workspace, same artifact and checksum, same objects added
+     C20_reenc_sim           the construction [reenc] (re-encode any subset [sel] of the manifests
+                             of a closed tree) succeeds and yields a simulating artifact
+     C20_all_operations, C20_old_schema_equivalent   the summary statements
+     cex_expand_short_key, cex_commit_sim_art_only   why short_absent / sim_full are needed
 
    No axioms; every theorem is followed by Print Assumptions. *)
 From Coq Require Import String NArith List Bool Lia PeanoNat.
@@ -1013,50 +1018,883 @@ Section SimCheck.
 End SimCheck.
 
 (* ------------------------------------------------------------------------------------------ *)
-(* Non-vacuity: a concrete two-level tree                                                      *)
+(* 6b. a commit on top of an old-schema cache                                                  *)
 (* ------------------------------------------------------------------------------------------ *)
 
-(* Re-encode the manifests below an artifact: [sel path] chooses the schema of the manifest with
-   that path.  Children first (their new keys go into the parent), objects are added to c2. *)
+(* induction on workspace trees *)
+Section NodeInd.
+  Variable P : node -> Prop.
+  Hypothesis P_file : forall b, P (File b).
+  Hypothesis P_linkc : forall d, P (LinkC d).
+  Hypothesis P_linko : forall t, P (LinkO t).
+  Hypothesis P_other : P Other.
+  Hypothesis P_dir : forall es, Forall (fun e => P (snd e)) es -> P (Dir es).
+
+  Fixpoint node_ind_n (n : node) : P n :=
+    match n with
+    | File b => P_file b
+    | LinkC d => P_linkc d
+    | LinkO t => P_linko t
+    | Other => P_other
+    | Dir es =>
+      P_dir es ((fix go (l : list (bytes * node)) : Forall (fun e => P (snd e)) l :=
+                   match l with
+                   | [] => Forall_nil _
+                   | e :: r => Forall_cons e (node_ind_n (snd e)) (go r)
+                   end) es)
+    end.
+End NodeInd.
+
+(* the loop of commit_node with the recursive call abstracted *)
+Definition cm_child (old : list (bytes * artifact)) (name : bytes) (ch : node) : artifact :=
+  match alookup name old with
+  | Some oa => if Bool.eqb (a_isdir oa) (is_dir ch) then oa else fresh_art name (is_dir ch)
+  | None => fresh_art name (is_dir ch)
+  end.
+
+Definition cm_go (F : artifact -> node -> cache -> res (node * cache * artifact))
+  (nr : bool) (old : list (bytes * artifact)) :=
+  fix go (es : list (bytes * node)) (c : cache)
+    : res (list (bytes * node) * cache * list (bytes * artifact)) :=
+    match es with
+    | [] => Ok ([], c, [])
+    | (name, ch) :: r =>
+      if nr && is_dir ch then
+        match go r c with
+        | Ok (es', c', m) => Ok ((name, ch) :: es', c', m)
+        | Err => Err
+        end
+      else if negb (utf8_name name) then Err
+      else
+        match F (cm_child old name ch) ch c with
+        | Err => Err
+        | Ok (ch', c1, child') =>
+          match go r c1 with
+          | Ok (es', c2, m) => Ok ((name, ch') :: es', c2, (a_path child', child') :: m)
+          | Err => Err
+          end
+        end
+    end.
+
+Lemma commit_node_Dir H a es c st :
+  commit_node H a (Dir es) c st =
+  if a_isdir a then
+    match old_contents a c with
+    | Err => Err
+    | Ok old =>
+      match cm_go (fun x ch c' => commit_node H x ch c' st) (a_norec a) old es c with
+      | Err => Err
+      | Ok (es', c', m) =>
+        let mb := enc_manifest (mkMan (a_path a) m) in
+        Ok (Dir es', cput c' (H mb) mb, set_cs a (H mb))
+      end
+    end
+  else commit_file H a (Dir es) c st.
+Proof. reflexivity. Qed.
+
+Lemma commit_node_nondir H a n c st :
+  is_dir n = false -> commit_node H a n c st = if a_isdir a then Err else commit_file H a n c st.
+Proof. destruct n; intros Hd; try discriminate Hd; reflexivity. Qed.
+
+(* lookups after an insertion *)
+Lemma alookup_ins_same {A} k (v : A) l : alookup k (ins_sorted k v l) = Some v.
+Proof.
+  induction l as [|[k1 v1] r IH]; cbn [ins_sorted alookup].
+  - rewrite beqb_refl. reflexivity.
+  - destruct (beqb k k1) eqn:E1.
+    + cbn [alookup]. rewrite beqb_refl. reflexivity.
+    + destruct (bltb k k1).
+      * cbn [alookup]. rewrite beqb_refl. reflexivity.
+      * cbn [alookup]. rewrite E1. exact IH.
+Qed.
+
+Lemma alookup_ins_other {A} k k' (v : A) l : beqb k' k = false -> alookup k' (ins_sorted k v l) = alookup k' l.
+Proof.
+  intros En. induction l as [|[k1 v1] r IH]; cbn [ins_sorted alookup].
+  - rewrite En. reflexivity.
+  - destruct (beqb k k1) eqn:E1.
+    + apply beqb_eq in E1. subst k1. cbn [alookup]. rewrite En. reflexivity.
+    + destruct (bltb k k1).
+      * cbn [alookup]. rewrite En. reflexivity.
+      * cbn [alookup]. destruct (beqb k' k1); [reflexivity | exact IH].
+Qed.
+
+Lemma cget_cput_same c k b : cget (cput c k b) k = Some (mkObj b cache_perms).
+Proof. unfold cget, cput. apply alookup_ins_same. Qed.
+
+Lemma cget_cput_other c k b d : beqb d k = false -> cget (cput c k b) d = cget c d.
+Proof. unfold cget, cput. apply alookup_ins_other. Qed.
+
+(* the objects a commit adds: always content-addressed *)
+Definition puts (H : bytes -> bytes) (c : cache) (P : list bytes) : cache :=
+  fold_left (fun c b => cput c (H b) b) P c.
+
+Lemma puts_app H c P Q : puts H c (P ++ Q) = puts H (puts H c P) Q.
+Proof. unfold puts. apply fold_left_app. Qed.
+
+Section CommitSim.
+  Variable H : bytes -> bytes.
+  Hypothesis Hinj : H_inj H.
+
+  Lemma cache_ok_cput c b : cache_ok H c -> cache_ok H (cput c (H b) b).
+  Proof.
+    intros Hc d o Hg. destruct (beqb d (H b)) eqn:E.
+    - apply beqb_eq in E. subst d. rewrite cget_cput_same in Hg. injection Hg as <-.
+      split; reflexivity.
+    - rewrite (cget_cput_other _ _ _ _ E) in Hg. exact (Hc d o Hg).
+  Qed.
+
+  Lemma cache_ok_puts P : forall c, cache_ok H c -> cache_ok H (puts H c P).
+  Proof.
+    induction P as [|b P IH]; intros c Hc; [exact Hc|]. cbn [puts fold_left].
+    apply IH. apply cache_ok_cput. exact Hc.
+  Qed.
+
+  (* an object that is present is not changed by a content-addressed write *)
+  Lemma cput_keeps c b d o : cache_ok H c -> cget c d = Some o -> cget (cput c (H b) b) d = Some o.
+  Proof.
+    intros Hc Hg. destruct (beqb d (H b)) eqn:E.
+    - apply beqb_eq in E. subst d. rewrite cget_cput_same.
+      destruct (Hc _ _ Hg) as [Hk Hm]. apply Hinj in Hk. subst b.
+      destruct o as [dd mm]. cbn [o_data o_mode] in *. subst mm. reflexivity.
+    - rewrite (cget_cput_other _ _ _ _ E). exact Hg.
+  Qed.
+
+  (* The simulation restricted to COMPLETE histories: every directory artifact that has a
+     checksum is present on both sides (no garbage-collected manifests).  A write that fills in
+     a missing manifest on one side only would break [sim_art]; with everything present,
+     content-addressed writes keep the relation. *)
+  Fixpoint sim_full (c1 c2 : cache) (fuel : nat) (a1 a2 : artifact) : Prop :=
+    match fuel with
+    | O => True
+    | S f =>
+      same_shape a1 a2 /\ has_cs (a_cs a1) = has_cs (a_cs a2) /\
+      if a_isdir a1
+      then has_cs (a_cs a1) = true ->
+           exists o1 o2, cget c1 (a_cs a1) = Some o1 /\ cget c2 (a_cs a2) = Some o2 /\
+             match dec_manifest (o_data o1), dec_manifest (o_data o2) with
+             | None, None => True
+             | Some m1, Some m2 =>
+               m_path m1 = m_path m2 /\ kids_rel (sim_full c1 c2 f) (m_contents m1) (m_contents m2)
+             | _, _ => False
+             end
+      else a_cs a1 = a_cs a2 /\
+           (has_cs (a_cs a1) = true -> cget c1 (a_cs a1) = cget c2 (a_cs a2))
+    end.
+
+  Lemma sim_full_sim c1 c2 fuel : forall a1 a2, sim_full c1 c2 fuel a1 a2 -> sim_art c1 c2 fuel a1 a2.
+  Proof.
+    induction fuel as [|f IH]; intros a1 a2 Hs; [exact I|].
+    cbn [sim_full] in Hs. destruct Hs as (Hsh & Hhas & Hrest). rewrite sim_art_S.
+    split; [exact Hsh|]. split; [exact Hhas|].
+    destruct (a_isdir a1); [|exact Hrest].
+    intros Hh. destruct (Hrest Hh) as (o1 & o2 & E1 & E2 & Hm). rewrite E1, E2. unfold man_rel.
+    destruct (dec_manifest (o_data o1)) as [m1|], (dec_manifest (o_data o2)) as [m2|]; try exact Hm.
+    destruct Hm as [Hp Hk]. split; [exact Hp | exact (kids_rel_impl _ _ _ _ IH Hk)].
+  Qed.
+
+  Lemma sim_full_fresh c1 c2 f name d : sim_full c1 c2 f (fresh_art name d) (fresh_art name d).
+  Proof.
+    destruct f as [|f]; [exact I|]. cbn [sim_full fresh_art a_cs a_isdir].
+    split; [repeat split|]. split; [reflexivity|].
+    destruct d.
+    - intros Hh. discriminate Hh.
+    - split; [reflexivity|]. intros Hh. discriminate Hh.
+  Qed.
+
+  Lemma sim_full_cput c1 c2 b f : forall x y,
+    cache_ok H c1 -> cache_ok H c2 ->
+    sim_full c1 c2 f x y -> sim_full (cput c1 (H b) b) (cput c2 (H b) b) f x y.
+  Proof.
+    induction f as [|f IH]; intros x y Hc1 Hc2 Hs; [exact I|].
+    cbn [sim_full] in Hs |- *. destruct Hs as (Hsh & Hhas & Hrest).
+    split; [exact Hsh|]. split; [exact Hhas|].
+    destruct (a_isdir x).
+    - intros Hh. destruct (Hrest Hh) as (o1 & o2 & E1 & E2 & Hm). exists o1, o2.
+      split; [exact (cput_keeps _ _ _ _ Hc1 E1)|]. split; [exact (cput_keeps _ _ _ _ Hc2 E2)|].
+      destruct (dec_manifest (o_data o1)) as [m1|], (dec_manifest (o_data o2)) as [m2|]; try exact Hm.
+      destruct Hm as [Hp Hk]. split; [exact Hp|].
+      apply (kids_rel_impl (sim_full c1 c2 f)); [|exact Hk].
+      intros x' y' Hxy. exact (IH x' y' Hc1 Hc2 Hxy).
+    - destruct Hrest as [Hcs Hc]. split; [exact Hcs|]. intros Hh. rewrite <- Hcs in *.
+      destruct (beqb (a_cs x) (H b)) eqn:E.
+      + apply beqb_eq in E. rewrite E, !cget_cput_same. reflexivity.
+      + rewrite !(cget_cput_other _ _ _ _ E). exact (Hc Hh).
+  Qed.
+
+  Lemma sim_full_puts P : forall c1 c2 f x y,
+    cache_ok H c1 -> cache_ok H c2 ->
+    sim_full c1 c2 f x y -> sim_full (puts H c1 P) (puts H c2 P) f x y.
+  Proof.
+    induction P as [|b P IH]; intros c1 c2 f x y Hc1 Hc2 Hs; [exact Hs|]. cbn [puts fold_left].
+    apply IH; try (apply cache_ok_cput; assumption). apply sim_full_cput; assumption.
+  Qed.
+
+  (* every link of the workspace tree points at a key in the set K *)
+  Fixpoint all_links (K : bytes -> Prop) (n : node) : Prop :=
+    match n with
+    | LinkC d => K d
+    | Dir es => (fix all (l : list (bytes * node)) : Prop :=
+                   match l with [] => True | (_, ch) :: r => all_links K ch /\ all r end) es
+    | _ => True
+    end.
+
+  Lemma all_links_dir K es : all_links K (Dir es) -> Forall (fun e => all_links K (snd e)) es.
+  Proof.
+    cbn [all_links]. induction es as [|[k ch] r IH]; intros Ha; [constructor|].
+    destruct Ha as [Hch Hr]. constructor; [exact Hch | exact (IH Hr)].
+  Qed.
+
+  (* the two caches agree on which keys of K are present *)
+  Definition agree_on (K : bytes -> Prop) (c1 c2 : cache) : Prop :=
+    forall d, K d -> in_cache c1 d = in_cache c2 d.
+
+  Lemma agree_on_puts K P : forall c1 c2, agree_on K c1 c2 -> agree_on K (puts H c1 P) (puts H c2 P).
+  Proof.
+    induction P as [|b P IH]; intros c1 c2 Ha; [exact Ha|]. cbn [puts fold_left]. apply IH.
+    intros d Hd. unfold in_cache. destruct (beqb d (H b)) eqn:E.
+    - apply beqb_eq in E. subst d. rewrite !cget_cput_same. reflexivity.
+    - rewrite !(cget_cput_other _ _ _ _ E). exact (Ha d Hd).
+  Qed.
+
+  (* results of a commit on the two sides: the same node, the same artifact (in particular the
+     same recorded checksum), and the same objects added to the two caches *)
+  Definition commit_rel (c1 c2 : cache) (r1 r2 : res (node * cache * artifact)) : Prop :=
+    match r1, r2 with
+    | Ok (n1, c1', b1), Ok (n2, c2', b2) =>
+      n1 = n2 /\ b1 = b2 /\ exists P, c1' = puts H c1 P /\ c2' = puts H c2 P
+    | Err, Err => True
+    | _, _ => False
+    end.
+
+  Definition sim_full_all (c1 c2 : cache) (a1 a2 : artifact) : Prop := forall f, sim_full c1 c2 f a1 a2.
+
+  Lemma full_file_eq c1 c2 a1 a2 : sim_full_all c1 c2 a1 a2 -> a_isdir a1 = false -> a1 = a2.
+  Proof.
+    intros Hs Hd. apply (sim_file_eq c1 c2 O); [|exact Hd]. apply sim_full_sim. exact (Hs 1%nat).
+  Qed.
+
+  Lemma set_cs_shape a1 a2 d : same_shape a1 a2 -> set_cs a1 d = set_cs a2 d.
+  Proof. intros (Hp & Hd & Hn & Hk). unfold set_cs. rewrite Hp, Hd, Hn, Hk. reflexivity. Qed.
+
+  Lemma commit_file_sim K c1 c2 a n st :
+    all_links K n -> agree_on K c1 c2 ->
+    (has_cs (a_cs a) = true -> cget c1 (a_cs a) = cget c2 (a_cs a)) ->
+    commit_rel c1 c2 (commit_file H a n c1 st) (commit_file H a n c2 st).
+  Proof.
+    intros Hl Ha Hc. unfold commit_file. rewrite (qmatch_sim c1 c2 _ (Some n) Hc).
+    destruct (qmatch c2 (a_cs a) (Some n)).
+    - split; [reflexivity|]. split; [reflexivity|]. exists []. split; reflexivity.
+    - destruct n as [b|d|t|es|]; try exact I.
+      + destruct (a_skip a).
+        * split; [reflexivity|]. split; [reflexivity|]. exists []. split; reflexivity.
+        * destruct st; (split; [reflexivity|]; split; [reflexivity|]; exists [b]; split; reflexivity).
+      + cbn [all_links] in Hl. rewrite (Ha d Hl). destruct (in_cache c2 d); [|exact I].
+        split; [reflexivity|]. split; [reflexivity|]. exists []. split; reflexivity.
+  Qed.
+
+  (* the old manifests the two commits start from *)
+  Lemma full_old_contents c1 c2 a1 a2 :
+    a_isdir a1 = true -> sim_full_all c1 c2 a1 a2 ->
+    match old_contents a1 c1, old_contents a2 c2 with
+    | Ok l1, Ok l2 => forall f, kids_rel (sim_full c1 c2 f) l1 l2
+    | Err, Err => True
+    | _, _ => False
+    end.
+  Proof.
+    intros Hdir Hs. unfold old_contents.
+    pose proof (Hs 1%nat) as H1. cbn [sim_full] in H1. destruct H1 as (_ & Hhas & H1). rewrite Hdir in H1.
+    rewrite <- Hhas. destruct (has_cs (a_cs a1)) eqn:Hh; [|intros f; constructor].
+    destruct (H1 eq_refl) as (o1 & o2 & E1 & E2 & Hm). rewrite E1, E2.
+    destruct (dec_manifest (o_data o1)) as [m1|] eqn:D1, (dec_manifest (o_data o2)) as [m2|] eqn:D2;
+      try exact Hm.
+    intros f. pose proof (Hs (S f)) as Hf. cbn [sim_full] in Hf. destruct Hf as (_ & _ & Hf).
+    rewrite Hdir in Hf. destruct (Hf Hh) as (o1' & o2' & E1' & E2' & Hm').
+    rewrite E1 in E1'. rewrite E2 in E2'. injection E1' as <-. injection E2' as <-.
+    rewrite D1, D2 in Hm'. exact (proj2 Hm').
+  Qed.
+
+  Lemma full_child c1 c2 l1 l2 name ch :
+    (forall f, kids_rel (sim_full c1 c2 f) l1 l2) ->
+    sim_full_all c1 c2 (cm_child l1 name ch) (cm_child l2 name ch).
+  Proof.
+    intros Hk f. unfold cm_child.
+    pose proof (kids_rel_alookup _ l1 l2 name (Hk f)) as Hl.
+    pose proof (kids_rel_alookup _ l1 l2 name (Hk 1%nat)) as Hl1.
+    destruct (alookup name l1) as [x|], (alookup name l2) as [y|]; try (exfalso; exact Hl).
+    - cbn [sim_full] in Hl1. destruct Hl1 as ((_ & Hd & _) & _). rewrite <- Hd.
+      destruct (Bool.eqb (a_isdir x) (is_dir ch)); [exact Hl | apply sim_full_fresh].
+    - apply sim_full_fresh.
+  Qed.
+
+  Definition go_rel (c1 c2 : cache)
+    (r1 r2 : res (list (bytes * node) * cache * list (bytes * artifact))) : Prop :=
+    match r1, r2 with
+    | Ok (es1, c1', m1), Ok (es2, c2', m2) =>
+      es1 = es2 /\ m1 = m2 /\ exists P, c1' = puts H c1 P /\ c2' = puts H c2 P
+    | Err, Err => True
+    | _, _ => False
+    end.
+
+  Lemma cm_go_sim K st nr l1 l2 es :
+    Forall (fun e => forall c1 c2 a1 a2,
+              all_links K (snd e) -> cache_ok H c1 -> cache_ok H c2 -> agree_on K c1 c2 ->
+              sim_full_all c1 c2 a1 a2 ->
+              commit_rel c1 c2 (commit_node H a1 (snd e) c1 st) (commit_node H a2 (snd e) c2 st)) es ->
+    Forall (fun e => all_links K (snd e)) es ->
+    forall c1 c2,
+      cache_ok H c1 -> cache_ok H c2 -> agree_on K c1 c2 ->
+      (forall f, kids_rel (sim_full c1 c2 f) l1 l2) ->
+      go_rel c1 c2 (cm_go (fun x ch c' => commit_node H x ch c' st) nr l1 es c1)
+                   (cm_go (fun x ch c' => commit_node H x ch c' st) nr l2 es c2).
+  Proof.
+    intros HIH. induction HIH as [|[name ch] r IHch _ IHr]; intros Hlinks c1 c2 Hc1 Hc2 Hag Hk;
+      cbn [cm_go].
+    - split; [reflexivity|]. split; [reflexivity|]. exists []. split; reflexivity.
+    - inversion Hlinks as [|e r' Hlch Hlr]; subst. cbn [snd] in IHch, Hlch.
+      destruct (nr && is_dir ch).
+      + pose proof (IHr Hlr c1 c2 Hc1 Hc2 Hag Hk) as Hr. unfold go_rel in Hr |- *.
+        destruct (cm_go _ nr l1 r c1) as [[[es1 c1'] m1]|], (cm_go _ nr l2 r c2) as [[[es2 c2'] m2]|];
+          try exact Hr.
+        destruct Hr as (-> & -> & HP). split; [reflexivity|]. split; [reflexivity | exact HP].
+      + destruct (negb (utf8_name name)); [exact I|].
+        pose proof (IHch c1 c2 _ _ Hlch Hc1 Hc2 Hag (full_child c1 c2 l1 l2 name ch Hk)) as Hch.
+        unfold commit_rel in Hch.
+        destruct (commit_node H (cm_child l1 name ch) ch c1 st) as [[[ch1 c1'] b1]|],
+                 (commit_node H (cm_child l2 name ch) ch c2 st) as [[[ch2 c2'] b2]|];
+          try (exfalso; exact Hch); [|exact I].
+        destruct Hch as (-> & -> & P & -> & ->).
+        assert (Hk' : forall f, kids_rel (sim_full (puts H c1 P) (puts H c2 P) f) l1 l2).
+        { intros f. apply (kids_rel_impl (sim_full c1 c2 f)); [|exact (Hk f)].
+          intros x y Hxy. apply sim_full_puts; assumption. }
+        pose proof (IHr Hlr _ _ (cache_ok_puts P c1 Hc1) (cache_ok_puts P c2 Hc2)
+                        (agree_on_puts K P c1 c2 Hag) Hk') as Hr.
+        unfold go_rel in Hr |- *.
+        destruct (cm_go _ nr l1 r (puts H c1 P)) as [[[es1 c1''] m1]|],
+                 (cm_go _ nr l2 r (puts H c2 P)) as [[[es2 c2''] m2]|]; try exact Hr.
+        destruct Hr as (-> & -> & Q & -> & ->). split; [reflexivity|]. split; [reflexivity|].
+        exists (P ++ Q). rewrite !puts_app. split; reflexivity.
+  Qed.
+
+  (* C20, commit on top: committing the same workspace tree on top of the two histories gives
+     the same workspace, the same artifact - the recorded checksum does not depend on the schema
+     the old manifests were written in - and adds the same (current-format) objects. *)
+  Theorem C20_commit_on_top K st n : forall c1 c2 a1 a2,
+    all_links K n -> cache_ok H c1 -> cache_ok H c2 -> agree_on K c1 c2 ->
+    sim_full_all c1 c2 a1 a2 ->
+    commit_rel c1 c2 (commit_node H a1 n c1 st) (commit_node H a2 n c2 st).
+  Proof.
+    induction n as [b|d|t| |es IH] using node_ind_n; intros c1 c2 a1 a2 Hl Hc1 Hc2 Hag Hs;
+      pose proof (Hs 1%nat) as Hs1; cbn [sim_full] in Hs1; destruct Hs1 as (Hsh & Hhas & Hrest);
+      pose proof Hsh as (Hp & Hd & Hn & Hk).
+    1-4: rewrite !commit_node_nondir by reflexivity; rewrite <- Hd;
+         destruct (a_isdir a1) eqn:Hdir; [exact I|];
+         rewrite <- (full_file_eq c1 c2 a1 a2 Hs Hdir);
+         destruct Hrest as [Hcs Hc]; rewrite <- Hcs in Hc;
+         exact (commit_file_sim K c1 c2 a1 _ st Hl Hag Hc).
+    rewrite !commit_node_Dir. rewrite <- Hd. destruct (a_isdir a1) eqn:Hdir.
+    - pose proof (full_old_contents c1 c2 a1 a2 Hdir Hs) as Hold.
+      destruct (old_contents a1 c1) as [l1|], (old_contents a2 c2) as [l2|];
+        try (exfalso; exact Hold); [|exact I].
+      rewrite <- Hn.
+      pose proof (cm_go_sim K st (a_norec a1) l1 l2 es IH (all_links_dir K es Hl) c1 c2 Hc1 Hc2 Hag Hold) as Hgo.
+      unfold go_rel in Hgo.
+      destruct (cm_go _ (a_norec a1) l1 es c1) as [[[es1 c1'] m1]|],
+               (cm_go _ (a_norec a1) l2 es c2) as [[[es2 c2'] m2]|]; try (exfalso; exact Hgo); [|exact I].
+      destruct Hgo as (-> & -> & P & -> & ->). cbv zeta. rewrite <- Hp.
+      split; [reflexivity|]. split; [apply set_cs_shape; exact Hsh|].
+      exists (P ++ [enc_manifest (mkMan (a_path a1) m2)]). rewrite !puts_app. split; reflexivity.
+    - rewrite <- (full_file_eq c1 c2 a1 a2 Hs Hdir).
+      destruct Hrest as [Hcs Hc]. rewrite <- Hcs in Hc.
+      exact (commit_file_sim K c1 c2 a1 _ st Hl Hag Hc).
+  Qed.
+
+  (* in particular the recorded checksum and the resulting workspace are the same *)
+  Corollary C20_commit_checksum K st n c1 c2 a1 a2 n1 c1' b1 n2 c2' b2 :
+    all_links K n -> cache_ok H c1 -> cache_ok H c2 -> agree_on K c1 c2 ->
+    sim_full_all c1 c2 a1 a2 ->
+    commit_node H a1 n c1 st = Ok (n1, c1', b1) -> commit_node H a2 n c2 st = Ok (n2, c2', b2) ->
+    n1 = n2 /\ a_cs b1 = a_cs b2.
+  Proof.
+    intros Hl Hc1 Hc2 Hag Hs E1 E2.
+    pose proof (C20_commit_on_top K st n c1 c2 a1 a2 Hl Hc1 Hc2 Hag Hs) as Hr.
+    rewrite E1, E2 in Hr. destruct Hr as (-> & -> & _). split; reflexivity.
+  Qed.
+End CommitSim.
+
+Print Assumptions C20_commit_on_top.
+Print Assumptions C20_commit_checksum.
+
+(* A well-founded form of [sim_full] (a finite committed tree, d levels deep), its boolean
+   checker, and the one-step / whole-tree rewriting statements for it. *)
+Section SimWf.
+  Variables c1 c2 : cache.
+
+  Fixpoint sim_wf (d : nat) (a1 a2 : artifact) : Prop :=
+    same_shape a1 a2 /\ has_cs (a_cs a1) = has_cs (a_cs a2) /\
+    if a_isdir a1 then
+      has_cs (a_cs a1) = true ->
+      match d with
+      | O => False
+      | S d' =>
+        exists o1 o2, cget c1 (a_cs a1) = Some o1 /\ cget c2 (a_cs a2) = Some o2 /\
+          match dec_manifest (o_data o1), dec_manifest (o_data o2) with
+          | None, None => True
+          | Some m1, Some m2 => m_path m1 = m_path m2 /\ kids_rel (sim_wf d') (m_contents m1) (m_contents m2)
+          | _, _ => False
+          end
+      end
+    else a_cs a1 = a_cs a2 /\ (has_cs (a_cs a1) = true -> cget c1 (a_cs a1) = cget c2 (a_cs a2)).
+
+  Theorem sim_wf_full d : forall a1 a2, sim_wf d a1 a2 -> sim_full_all c1 c2 a1 a2.
+  Proof.
+    induction d as [|d IH]; intros a1 a2 Hw f; (destruct f as [|f]; [exact I|]);
+      cbn [sim_wf] in Hw; destruct Hw as (Hsh & Hhas & Hrest); cbn [sim_full];
+      (split; [exact Hsh|]); (split; [exact Hhas|]); (destruct (a_isdir a1); [|exact Hrest]);
+      intros Hh; specialize (Hrest Hh); [exfalso; exact Hrest|].
+    destruct Hrest as (o1 & o2 & E1 & E2 & Hm). exists o1, o2. split; [exact E1|]. split; [exact E2|].
+    destruct (dec_manifest (o_data o1)) as [m1|], (dec_manifest (o_data o2)) as [m2|]; try exact Hm.
+    destruct Hm as [Hp Hk]. split; [exact Hp|].
+    apply (kids_rel_impl (sim_wf d)); [|exact Hk]. intros x y Hxy. exact (IH x y Hxy f).
+  Qed.
+
+  Fixpoint sim_wfb (d : nat) (a1 a2 : artifact) : bool :=
+    shapeb a1 a2 && Bool.eqb (has_cs (a_cs a1)) (has_cs (a_cs a2)) &&
+    if a_isdir a1 then
+      if has_cs (a_cs a1) then
+        match d with
+        | O => false
+        | S d' =>
+          match cget c1 (a_cs a1), cget c2 (a_cs a2) with
+          | Some x1, Some x2 =>
+            match dec_manifest (o_data x1), dec_manifest (o_data x2) with
+            | None, None => true
+            | Some m1, Some m2 =>
+              beqb (m_path m1) (m_path m2) && kidsb (sim_wfb d') (m_contents m1) (m_contents m2)
+            | _, _ => false
+            end
+          | _, _ => false
+          end
+        end
+      else true
+    else beqb (a_cs a1) (a_cs a2) &&
+         (if has_cs (a_cs a1) then obj_eqb (cget c1 (a_cs a1)) (cget c2 (a_cs a2)) else true).
+
+  Lemma sim_wfb_ok d : forall a1 a2, sim_wfb d a1 a2 = true -> sim_wf d a1 a2.
+  Proof.
+    induction d as [|d IH]; intros a1 a2 E; cbn [sim_wfb] in E; cbn [sim_wf];
+      apply andb_true_iff in E as [E E3]; apply andb_true_iff in E as [E1 E2];
+      (split; [exact (shapeb_ok _ _ E1)|]); (split; [exact (Bool.eqb_prop _ _ E2)|]);
+      destruct (a_isdir a1).
+    - intros Hh. rewrite Hh in E3. discriminate E3.
+    - apply andb_true_iff in E3 as [Ecs Ec]. apply beqb_eq in Ecs. split; [exact Ecs|].
+      intros Hh. rewrite Hh in Ec. exact (obj_eqb_eq _ _ Ec).
+    - intros Hh. rewrite Hh in E3.
+      destruct (cget c1 (a_cs a1)) as [x1|], (cget c2 (a_cs a2)) as [x2|]; try discriminate E3.
+      exists x1, x2. split; [reflexivity|]. split; [reflexivity|].
+      destruct (dec_manifest (o_data x1)) as [m1|], (dec_manifest (o_data x2)) as [m2|];
+        try discriminate E3; [|exact I].
+      apply andb_true_iff in E3 as [Ep Ek]. apply beqb_eq in Ep.
+      split; [exact Ep | exact (kidsb_ok _ _ IH _ _ Ek)].
+    - apply andb_true_iff in E3 as [Ecs Ec]. apply beqb_eq in Ecs. split; [exact Ecs|].
+      intros Hh. rewrite Hh in Ec. exact (obj_eqb_eq _ _ Ec).
+  Qed.
+
+  (* one rewriting step, for complete histories *)
+  Theorem C20_rewrite_wf d a1 a2 o1 o2 m m' old1 old2 :
+    same_shape a1 a2 -> a_isdir a1 = true -> has_cs (a_cs a1) = has_cs (a_cs a2) ->
+    cget c1 (a_cs a1) = Some o1 -> o_data o1 = enc_as old1 m -> ManifestRT.wf_manifest m = true ->
+    cget c2 (a_cs a2) = Some o2 -> o_data o2 = enc_as old2 m' -> ManifestRT.wf_manifest m' = true ->
+    m_path m = m_path m' ->
+    kids_rel (sim_wf d) (m_contents m) (m_contents m') ->
+    sim_wf (S d) a1 a2.
+  Proof.
+    intros Hsh Hdir Hh E1 D1 W1 E2 D2 W2 Hp Hk. cbn [sim_wf]. rewrite Hdir.
+    split; [exact Hsh|]. split; [exact Hh|]. intros _. exists o1, o2.
+    split; [exact E1|]. split; [exact E2|].
+    rewrite D1, D2, (dec_enc_as old1 m W1), (dec_enc_as old2 m' W2). split; [exact Hp | exact Hk].
+  Qed.
+End SimWf.
+
+Print Assumptions sim_wf_full.
+Print Assumptions C20_rewrite_wf.
+
+(* a decidable sufficient condition for cache_ok *)
+Definition cache_okb (H : bytes -> bytes) (c : cache) : bool :=
+  forallb (fun kv => beqb (fst kv) (H (o_data (snd kv))) && (o_mode (snd kv) =? cache_perms)) c.
+
+Lemma cache_okb_ok H c : cache_okb H c = true -> cache_ok H c.
+Proof.
+  unfold cache_okb, cache_ok, cget. induction c as [|[k o] r IH]; intros E d o' Hg; cbn [alookup] in Hg.
+  - discriminate Hg.
+  - cbn [forallb fst snd] in E. apply andb_true_iff in E as [E1 E2].
+    destruct (beqb d k) eqn:Ed.
+    + apply beqb_eq in Ed. subst d. injection Hg as <-.
+      apply andb_true_iff in E1 as [Ek Em]. apply beqb_eq in Ek. apply N.eqb_eq in Em.
+      split; assumption.
+    + exact (IH E2 d o' Hg).
+Qed.
+
+(* ------------------------------------------------------------------------------------------ *)
+(* 7b. the construction of the property: re-encoding ANY SUBSET of the manifests of a tree     *)
+(* ------------------------------------------------------------------------------------------ *)
+
+Definition re_go (F : artifact -> cache -> option (artifact * cache)) :=
+  fix go (kids : list (bytes * artifact)) (c2 : cache) : option (list (bytes * artifact) * cache) :=
+    match kids with
+    | [] => Some ([], c2)
+    | (k, ch) :: r =>
+      match F ch c2 with
+      | None => None
+      | Some (ch', c2') =>
+        match go r c2' with
+        | None => None
+        | Some (l, c2'') => Some ((k, ch') :: l, c2'')
+        end
+      end
+    end.
+
+(* Re-encode the manifests below an artifact of c1: [sel path] chooses the schema (true = old)
+   of the manifest with that path.  Children first (their new keys go into the parent); the new
+   objects are added to c2. *)
 Fixpoint reenc (H : bytes -> bytes) (sel : bytes -> bool) (fuel : nat) (a : artifact) (c1 c2 : cache)
   : option (artifact * cache) :=
   match fuel with
   | O => None
   | S f =>
     if a_isdir a then
-      match cget c1 (a_cs a) with
-      | None => Some (a, c2)
-      | Some o =>
-        match dec_manifest (o_data o) with
-        | None => None
-        | Some m =>
-          match (fix go (kids : list (bytes * artifact)) (c2 : cache)
-                   : option (list (bytes * artifact) * cache) :=
-                   match kids with
-                   | [] => Some ([], c2)
-                   | (k, ch) :: r =>
-                     match reenc H sel f ch c1 c2 with
-                     | None => None
-                     | Some (ch', c2') =>
-                       match go r c2' with
-                       | None => None
-                       | Some (l, c2'') => Some ((k, ch') :: l, c2'')
-                       end
-                     end
-                   end) (m_contents m) c2 with
-          | None => None
-          | Some (l, c2') =>
-            let b := enc_as (sel (m_path m)) (mkMan (m_path m) l) in
-            Some (set_cs a (H b), cput c2' (H b) b)
-          end
-        end
-      end
+      if negb (has_cs (a_cs a)) then Some (a, c2)
+      else match cget c1 (a_cs a) with
+           | None => Some (a, c2)
+           | Some o =>
+             match dec_manifest (o_data o) with
+             | None => None
+             | Some m =>
+               match re_go (fun ch c => reenc H sel f ch c1 c) (m_contents m) c2 with
+               | None => None
+               | Some (l, c2') =>
+                 let b := enc_as (sel (m_path m)) (mkMan (m_path m) l) in
+                 Some (set_cs a (H b), cput c2' (H b) b)
+               end
+             end
+           end
     else Some (a, c2)
   end.
 
 (* the file objects of a cache *)
 Definition file_objects (c : cache) : cache :=
   filter (fun kv => match dec_manifest (o_data (snd kv)) with Some _ => false | None => true end) c.
+
+(* c' has every object of c *)
+Definition ext (c c' : cache) : Prop := forall d o, cget c d = Some o -> cget c' d = Some o.
+
+Lemma ext_refl c : ext c c.
+Proof. intros d o E. exact E. Qed.
+Lemma ext_trans c c' c'' : ext c c' -> ext c' c'' -> ext c c''.
+Proof. intros H1 H2 d o E. exact (H2 d o (H1 d o E)). Qed.
+
+Lemma keys_gt_keys {A B} k (l1 : list (bytes * A)) (l2 : list (bytes * B)) :
+  Forall2 (fun x y => fst x = fst y) l1 l2 -> keys_gt k l1 = keys_gt k l2.
+Proof.
+  intros Hl. induction Hl as [|x y l l' Hxy Hl IH]; [reflexivity|].
+  unfold keys_gt in *. cbn [forallb]. rewrite Hxy, IH. reflexivity.
+Qed.
+
+Lemma ssorted_keys {A B} (l1 : list (bytes * A)) (l2 : list (bytes * B)) :
+  Forall2 (fun x y => fst x = fst y) l1 l2 -> ssorted l1 = ssorted l2.
+Proof.
+  intros Hl. induction Hl as [|x y l l' Hxy Hl IH]; [reflexivity|].
+  cbn [ssorted]. rewrite Hxy, IH, (keys_gt_keys (fst y) l l' Hl). reflexivity.
+Qed.
+
+(* a well-formed manifest stays well-formed when checksums of children are replaced by text *)
+Lemma wf_rebuilt m l :
+  ManifestRT.wf_manifest m = true ->
+  Forall2 (fun kv kv' => fst kv = fst kv' /\ a_path (snd kv) = a_path (snd kv') /\
+                         okb (a_cs (snd kv')) = true) (m_contents m) l ->
+  ManifestRT.wf_manifest (mkMan (m_path m) l) = true.
+Proof.
+  unfold ManifestRT.wf_manifest. cbn [m_path m_contents]. intros Hw Hl.
+  apply andb_true_iff in Hw as [Hw H3]. apply andb_true_iff in Hw as [H1 H2].
+  rewrite H1. cbn [andb].
+  assert (Hk : Forall2 (fun (x y : bytes * artifact) => fst x = fst y) (m_contents m) l).
+  { clear -Hl. induction Hl as [|x y r r' (Hxy & _) Hl IH]; constructor; assumption. }
+  rewrite <- (ssorted_keys _ _ Hk), H2. cbn [andb].
+  clear Hk H1 H2. revert H3. generalize (m_contents m) Hl. clear Hl.
+  intros l0 Hl. induction Hl as [|[k x] [k' y] r r' (Hxy & Hp & Hc) Hl IH]; intros H3; [reflexivity|].
+  cbn [fst snd] in Hxy, Hp, Hc. subst k'.
+  unfold wf_entries in *. cbn [forallb] in H3 |- *. apply andb_true_iff in H3 as [Hx Hr].
+  rewrite (IH Hr), andb_true_r.
+  unfold wf_entry in Hx |- *. cbn [fst snd] in Hx |- *.
+  apply andb_true_iff in Hx as [Hx _]. apply andb_true_iff in Hx as [Hx Hx3].
+  apply andb_true_iff in Hx as [Hx1 Hx2].
+  rewrite <- Hp, Hx1, Hx2, Hx3, Hc. reflexivity.
+Qed.
+
+Lemma bytes_ok_wf s : bytes_ok s -> wf_bytes s = true.
+Proof.
+  unfold wf_bytes, bytes_ok. intros Hb.
+  induction Hb as [|b r Hbb _ IH]; [reflexivity|]. cbn [forallb]. rewrite IH, andb_true_r.
+  unfold is_byte. apply N.ltb_lt. exact Hbb.
+Qed.
+
+Lemma okstr_okb s : valid (length s) s = true -> bytes_ok s -> okb s = true.
+Proof. intros Hv Hb. unfold okb. rewrite Hv, (bytes_ok_wf s Hb). reflexivity. Qed.
+
+Section Reenc.
+  Variable H : bytes -> bytes.
+  Hypothesis Hinj : H_inj H.
+  Hypothesis Hhas : H_has H.
+  Hypothesis Htext : H_text H.                       (* digests are text *)
+  Variable sel : bytes -> bool.
+  Variable c1 : cache.
+
+  (* the tree below the artifact is completely present in c1 (d levels), its manifests are
+     well-formed (what commit writes, in either schema) *)
+  Fixpoint closed (d : nat) (a : artifact) : Prop :=
+    match d with
+    | O => False
+    | S d' =>
+      has_cs (a_cs a) = true ->
+      if a_isdir a then
+        exists o m, cget c1 (a_cs a) = Some o /\ dec_manifest (o_data o) = Some m /\
+                    ManifestRT.wf_manifest m = true /\
+                    Forall (fun kv => closed d' (snd kv)) (m_contents m)
+      else in_cache c1 (a_cs a) = true
+    end.
+
+  Lemma kids_rel_impl_Forall (Q : artifact -> Prop) (R R' : artifact -> artifact -> Prop) l1 l2 :
+    (forall x y, Q x -> R x y -> R' x y) ->
+    Forall (fun kv => Q (snd kv)) l1 -> kids_rel R l1 l2 -> kids_rel R' l1 l2.
+  Proof.
+    intros HR HQ Hk. induction Hk as [|x y l l' [Hxy Hr] Hk IH]; [constructor|].
+    inversion HQ as [|x' l0 Hx Hl]; subst.
+    constructor; [split; [exact Hxy | exact (HR _ _ Hx Hr)] | exact (IH Hl)].
+  Qed.
+
+  (* adding objects to c2 keeps the relation, for closed trees *)
+  Lemma sim_wf_ext c2 c2' d : forall x y,
+    closed d x -> ext c2 c2' -> sim_wf c1 c2 d x y -> sim_wf c1 c2' d x y.
+  Proof.
+    induction d as [|d IH]; intros x y Hcl He Hs; [exfalso; exact Hcl|].
+    cbn [sim_wf closed] in Hs, Hcl |- *. destruct Hs as (Hsh & Hh & Hrest).
+    split; [exact Hsh|]. split; [exact Hh|].
+    destruct (a_isdir x).
+    - intros Hx. destruct (Hcl Hx) as (o & m & Eo & Dm & _ & Hkids).
+      destruct (Hrest Hx) as (o1 & o2 & E1 & E2 & Hm).
+      rewrite Eo in E1. injection E1 as <-. rewrite Dm in Hm.
+      exists o, o2. split; [exact Eo|]. split; [exact (He _ _ E2)|]. rewrite Dm.
+      destruct (dec_manifest (o_data o2)) as [m2|]; [|exact Hm].
+      destruct Hm as [Hp Hk]. split; [exact Hp|].
+      apply (kids_rel_impl_Forall (closed d) (sim_wf c1 c2 d) (sim_wf c1 c2' d)); [|exact Hkids|exact Hk].
+      intros x' y' Hx' Hxy. exact (IH x' y' Hx' He Hxy).
+    - destruct Hrest as [Hcs Hc]. split; [exact Hcs|]. intros Hx.
+      specialize (Hc Hx). specialize (Hcl Hx). unfold in_cache in Hcl.
+      destruct (cget c1 (a_cs x)) as [o|] eqn:Eo; [|discriminate Hcl].
+      symmetry in Hc. rewrite (He _ _ Hc). reflexivity.
+  Qed.
+
+  Lemma Hokb b : okb (H b) = true.
+  Proof. destruct (Htext b) as [Hv Hb]. exact (okstr_okb _ Hv Hb). Qed.
+
+  Definition re_form (a a' : artifact) : Prop := a' = a \/ exists b, a' = set_cs a (H b).
+
+  Definition re_post (c2 : cache) (d : nat) (a a' : artifact) (c2' : cache) : Prop :=
+    cache_ok H c2' /\ ext c2 c2' /\ sim_wf c1 c2' d a a' /\ re_form a a'.
+
+  Lemma same_shape_refl a : same_shape a a.
+  Proof. repeat split. Qed.
+
+  Lemma sim_wf_refl_file c2 d a :
+    a_isdir a = false -> ext c1 c2 -> (has_cs (a_cs a) = true -> in_cache c1 (a_cs a) = true) ->
+    sim_wf c1 c2 d a a.
+  Proof.
+    intros Hd He Hin.
+    assert (Hgoal : same_shape a a /\ has_cs (a_cs a) = has_cs (a_cs a) /\
+                    (a_cs a = a_cs a /\ (has_cs (a_cs a) = true -> cget c1 (a_cs a) = cget c2 (a_cs a)))).
+    { split; [apply same_shape_refl|]. split; [reflexivity|]. split; [reflexivity|].
+      intros Hh. specialize (Hin Hh). unfold in_cache in Hin.
+      destruct (cget c1 (a_cs a)) as [o|] eqn:Eo; [|discriminate Hin].
+      rewrite (He _ _ Eo). reflexivity. }
+    destruct d; cbn [sim_wf]; rewrite Hd; exact Hgoal.
+  Qed.
+
+  Lemma sim_wf_nocs c2 d a : has_cs (a_cs a) = false -> sim_wf c1 c2 d a a.
+  Proof.
+    intros Hh.
+    destruct d; cbn [sim_wf]; (split; [apply same_shape_refl|]); (split; [reflexivity|]);
+      destruct (a_isdir a); try (intros Hh'; rewrite Hh in Hh'; discriminate Hh');
+      (split; [reflexivity|]); intros Hh'; rewrite Hh in Hh'; discriminate Hh'.
+  Qed.
+
+  Lemma re_go_spec d (F : artifact -> cache -> option (artifact * cache)) :
+    (forall a c2, cache_ok H c2 -> ext c1 c2 -> closed d a ->
+                  exists a' c2', F a c2 = Some (a', c2') /\ re_post c2 d a a' c2') ->
+    forall kids c2, cache_ok H c2 -> ext c1 c2 -> Forall (fun kv => closed d (snd kv)) kids ->
+      exists l c2', re_go F kids c2 = Some (l, c2') /\ cache_ok H c2' /\ ext c2 c2' /\
+        Forall2 (fun kv kv' => fst kv = fst kv' /\ sim_wf c1 c2' d (snd kv) (snd kv') /\
+                               re_form (snd kv) (snd kv')) kids l.
+  Proof.
+    intros HF. induction kids as [|[k ch] r IH]; intros c2 Hc2 He Hcl; cbn [re_go].
+    - exists [], c2. split; [reflexivity|]. split; [exact Hc2|]. split; [apply ext_refl | constructor].
+    - inversion Hcl as [|x l0 Hch Hr]; subst. cbn [snd] in Hch.
+      destruct (HF ch c2 Hc2 He Hch) as (ch' & c2a & EF & Hca & Hea & Hsa & Hfa). rewrite EF.
+      destruct (IH c2a Hca (ext_trans _ _ _ He Hea) Hr) as (l & c2b & Ego & Hcb & Heb & Hl). rewrite Ego.
+      exists ((k, ch') :: l), c2b. split; [reflexivity|]. split; [exact Hcb|].
+      split; [exact (ext_trans _ _ _ Hea Heb)|].
+      constructor; [|exact Hl]. cbn [fst snd]. split; [reflexivity|].
+      split; [exact (sim_wf_ext c2a c2b d ch ch' Hch Heb Hsa) | exact Hfa].
+  Qed.
+
+  Lemma reenc_spec d : forall a c2,
+    cache_ok H c2 -> ext c1 c2 -> closed d a ->
+    exists a' c2', reenc H sel d a c1 c2 = Some (a', c2') /\ re_post c2 d a a' c2'.
+  Proof.
+    induction d as [|d IH]; intros a c2 Hc2 He Hcl; [exfalso; exact Hcl|].
+    pose proof Hcl as Hcl0. cbn [closed] in Hcl. cbn [reenc].
+    destruct (a_isdir a) eqn:Hdir.
+    - destruct (has_cs (a_cs a)) eqn:Hh; cbn [negb].
+      + destruct (Hcl eq_refl) as (o & m & Eo & Dm & Wm & Hkids). rewrite Eo, Dm.
+        destruct (re_go_spec d (fun ch c => reenc H sel d ch c1 c) IH (m_contents m) c2 Hc2 He Hkids)
+          as (l & c2b & Ego & Hcb & Heb & Hl).
+        rewrite Ego. cbv zeta.
+        assert (Hlift : forall c', ext c2b c' -> kids_rel (sim_wf c1 c' d) (m_contents m) l).
+        { intros c' He'. clear -Hl Hkids He'.
+          induction Hl as [|x y r r' (Hxy & Hs & Hf) Hl IHl]; [constructor|].
+          inversion Hkids as [|x' r0 Hx Hr]; subst.
+          constructor; [|exact (IHl Hr)]. split; [exact Hxy|].
+          exact (sim_wf_ext c2b c' d (snd x) (snd y) Hx He' Hs). }
+        set (b := enc_as (sel (m_path m)) (mkMan (m_path m) l)).
+        exists (set_cs a (H b)), (cput c2b (H b) b). split; [reflexivity|].
+        assert (Hext : ext c2b (cput c2b (H b) b)).
+        { intros k o' Ek. exact (cput_keeps H Hinj c2b b k o' Hcb Ek). }
+        assert (Hwf : ManifestRT.wf_manifest (mkMan (m_path m) l) = true).
+        { apply wf_rebuilt; [exact Wm|].
+          assert (Hent : Forall (fun kv => okb (a_cs (snd kv)) = true) (m_contents m)).
+          { unfold ManifestRT.wf_manifest in Wm. apply andb_true_iff in Wm as [_ We].
+            unfold wf_entries in We. rewrite forallb_forall in We. apply Forall_forall.
+            intros kv Hin. specialize (We kv Hin). unfold wf_entry in We.
+            apply andb_true_iff in We as [_ We]. exact We. }
+          clear -Hl Hent Htext. induction Hl as [|x y r r' (Hxy & Hs & Hf) Hl IHl]; [constructor|].
+          inversion Hent as [|x' r0 Hx Hr]; subst.
+          constructor; [|exact (IHl Hr)]. split; [exact Hxy|]. split.
+          - destruct d; cbn [sim_wf] in Hs; destruct Hs as ((Hp & _) & _); exact Hp.
+          - destruct Hf as [->|[b' ->]]; [exact Hx | apply Hokb]. }
+        split; [exact (cache_ok_cput H c2b b Hcb)|].
+        split; [exact (ext_trans _ _ _ Heb Hext)|].
+        split; [|right; exists b; reflexivity].
+        cbn [sim_wf]. rewrite Hdir. cbn [set_cs a_cs].
+        split; [repeat split|]. split; [rewrite Hh, Hhas; reflexivity|]. intros _.
+        exists o, (mkObj b cache_perms). split; [exact Eo|]. split; [apply cget_cput_same|].
+        rewrite Dm. cbn [o_data]. unfold b at 1. rewrite (dec_enc_as _ _ Hwf). cbn [m_path m_contents].
+        split; [reflexivity | exact (Hlift _ Hext)].
+      + exists a, c2. split; [reflexivity|]. split; [exact Hc2|]. split; [apply ext_refl|].
+        split; [apply sim_wf_nocs; exact Hh | left; reflexivity].
+    - exists a, c2. split; [reflexivity|]. split; [exact Hc2|]. split; [apply ext_refl|].
+      split; [apply sim_wf_refl_file; [exact Hdir | exact He | exact Hcl] | left; reflexivity].
+  Qed.
+
+  (* C20, the construction: for every closed tree of a content-addressed cache and EVERY choice
+     [sel] of the directories whose manifests are rewritten in the old schema, the re-encoding
+     succeeds and the new artifact in the extended cache simulates the original one. *)
+  Theorem C20_reenc_sim d a :
+    cache_ok H c1 -> closed d a ->
+    exists a' c2, reenc H sel d a c1 c1 = Some (a', c2) /\
+                  cache_ok H c2 /\ ext c1 c2 /\ sim_wf c1 c2 d a a' /\ sim_full_all c1 c2 a a' /\
+                  forall fuel, sim_art c1 c2 fuel a a'.
+  Proof.
+    intros Hc1 Hcl.
+    destruct (reenc_spec d a c1 Hc1 (ext_refl c1) Hcl) as (a' & c2 & Er & Hc2 & He & Hs & _).
+    exists a', c2. split; [exact Er|]. split; [exact Hc2|]. split; [exact He|]. split; [exact Hs|].
+    pose proof (sim_wf_full c1 c2 d a a' Hs) as Hfull. split; [exact Hfull|].
+    intros fuel. apply sim_full_sim. exact (Hfull fuel).
+  Qed.
+End Reenc.
+
+Print Assumptions C20_reenc_sim.
+
+(* ------------------------------------------------------------------------------------------ *)
+(* Summary: every operation agrees                                                             *)
+(* ------------------------------------------------------------------------------------------ *)
+
+Theorem C20_all_operations H c1 c2 a1 a2 :
+  (forall fuel, sim_art c1 c2 fuel a1 a2) ->
+  forall fuel slot st,
+    checkout_node H fuel a1 slot c1 st = checkout_node H fuel a2 slot c2 st /\
+    status_rel (status_node H fuel a1 slot c1) (status_node H fuel a2 slot c2) /\
+    status_short H (S fuel) a1 slot c1 = status_short H (S fuel) a2 slot c2 /\
+    gather fuel a1 c1 = gather fuel a2 c2 /\
+    (short_absent c1 -> short_absent c2 -> expand fuel a1 c1 = expand fuel a2 c2).
+Proof.
+  intros Hs fuel slot st.
+  split; [apply C20_checkout_equal; apply Hs|].
+  split; [apply C20_status_equal; apply Hs|].
+  split; [apply C20_status_short_equal; apply Hs|].
+  split; [apply C20_gather_equal; apply Hs|].
+  intros S1 S2. apply C20_expand_equal; [exact S1 | exact S2 | apply Hs].
+Qed.
+Print Assumptions C20_all_operations.
+
+(* the property as stated: any tree of a content-addressed cache, the manifests of any subset
+   [sel] of its directories rewritten in the old schema *)
+Theorem C20_old_schema_equivalent H sel c1 d a :
+  H_inj H -> H_has H -> H_text H -> cache_ok H c1 -> closed c1 d a ->
+  exists a' c2,
+    reenc H sel d a c1 c1 = Some (a', c2) /\ cache_ok H c2 /\
+    (forall fuel slot st,
+       checkout_node H fuel a slot c1 st = checkout_node H fuel a' slot c2 st /\
+       status_rel (status_node H fuel a slot c1) (status_node H fuel a' slot c2) /\
+       status_short H (S fuel) a slot c1 = status_short H (S fuel) a' slot c2 /\
+       gather fuel a c1 = gather fuel a' c2 /\
+       expand fuel a c1 = expand fuel a' c2) /\
+    (forall K st n, all_links K n -> agree_on K c1 c2 ->
+       commit_rel H c1 c2 (commit_node H a n c1 st) (commit_node H a' n c2 st)).
+Proof.
+  intros Hinj Hhas Htext Hc1 Hcl.
+  destruct (C20_reenc_sim H Hinj Hhas Htext sel c1 d a Hc1 Hcl)
+    as (a' & c2 & Er & Hc2 & He & Hw & Hfull & Hsim).
+  exists a', c2. split; [exact Er|]. split; [exact Hc2|]. split.
+  - intros fuel slot st.
+    destruct (C20_all_operations H c1 c2 a a' Hsim fuel slot st) as (P1 & P2 & P3 & P4 & P5).
+    split; [exact P1|]. split; [exact P2|]. split; [exact P3|]. split; [exact P4|].
+    apply P5; eapply cache_ok_short_absent; eassumption.
+  - intros K st n Hl Hag. exact (C20_commit_on_top H Hinj K st n c1 c2 a a' Hl Hc1 Hc2 Hag Hfull).
+Qed.
+Print Assumptions C20_old_schema_equivalent.
+
+(* a checker for [closed] *)
+Fixpoint closedb (c1 : cache) (d : nat) (a : artifact) : bool :=
+  match d with
+  | O => false
+  | S d' =>
+    if has_cs (a_cs a) then
+      if a_isdir a then
+        match cget c1 (a_cs a) with
+        | Some o =>
+          match dec_manifest (o_data o) with
+          | Some m => ManifestRT.wf_manifest m && forallb (fun kv => closedb c1 d' (snd kv)) (m_contents m)
+          | None => false
+          end
+        | None => false
+        end
+      else in_cache c1 (a_cs a)
+    else true
+  end.
+
+Lemma closedb_ok c1 d : forall a, closedb c1 d a = true -> closed c1 d a.
+Proof.
+  induction d as [|d IH]; intros a E; [discriminate E|].
+  cbn [closedb] in E. cbn [closed]. intros Hh. rewrite Hh in E.
+  destruct (a_isdir a); [|exact E].
+  destruct (cget c1 (a_cs a)) as [o|]; [|discriminate E].
+  destruct (dec_manifest (o_data o)) as [m|] eqn:Dm; [|discriminate E].
+  apply andb_true_iff in E as [Ew Ek]. exists o, m.
+  split; [reflexivity|]. split; [exact Dm|]. split; [exact Ew|].
+  rewrite forallb_forall in Ek. apply Forall_forall. intros kv Hin. exact (IH _ (Ek kv Hin)).
+Qed.
+(* ------------------------------------------------------------------------------------------ *)
+(* Non-vacuity: a concrete two-level tree                                                      *)
+(* ------------------------------------------------------------------------------------------ *)
 
 Definition Ht : bytes -> bytes := fun b => 1 :: 2 :: 3 :: b.
 Definition ex_sub : bytes := [115; 117; 98].
@@ -1154,3 +1992,242 @@ Example ex_subsets_checkout :
     end)
     [(false, false); (true, false); (false, true); (true, true)] = true.
 Proof. vm_compute. reflexivity. Qed.
+
+(* a commit on top: the workspace after an edit (a changed, c added below sub), committed on
+   top of the current-format history and on top of each re-encoded one *)
+Lemma Ht_inj : H_inj Ht.
+Proof. intros a b E. unfold Ht in E. injection E as E. exact E. Qed.
+
+Definition ex_ws2 : node :=
+  Dir [([97], File [104; 111]); (ex_sub, Dir [([98], LinkC (Ht [120])); ([99], File [121])])].
+
+Example ex_commit_on_top_root :
+  match commit_node Ht ex_a1 ex_ws2 ex_c1 Link, commit_node Ht ex_a2 ex_ws2 ex_c2 Link with
+  | Ok (n1, _, b1), Ok (n2, _, b2) =>
+    node_eqb n1 n2 && art_eqb b1 b2 && negb (beqb (a_cs b1) (a_cs ex_a1))
+  | _, _ => false
+  end = true.
+Proof. vm_compute. reflexivity. Qed.
+
+Example ex_commit_on_top_subsets :
+  forallb (fun rs : bool * bool =>
+    let (a2, c2) := ex_re (fst rs) (snd rs) in
+    match commit_node Ht ex_a1 ex_ws2 ex_c1 Copy, commit_node Ht a2 ex_ws2 c2 Copy with
+    | Ok (n1, _, b1), Ok (n2, _, b2) => node_eqb n1 n2 && art_eqb b1 b2
+    | _, _ => false
+    end)
+    [(false, false); (true, false); (false, true); (true, true)] = true.
+Proof. vm_compute. reflexivity. Qed.
+
+(* the hypotheses of C20_commit_on_top hold for the instance *)
+Example ex_commit_theorem_applies st :
+  commit_rel Ht ex_c1 ex_c2 (commit_node Ht ex_a1 ex_ws2 ex_c1 st) (commit_node Ht ex_a2 ex_ws2 ex_c2 st).
+Proof.
+  apply (C20_commit_on_top Ht Ht_inj (fun d => in_cache ex_c1 d = in_cache ex_c2 d)).
+  - unfold ex_ws2. cbn [all_links]. repeat split; vm_compute; reflexivity.
+  - apply cache_okb_ok. vm_compute. reflexivity.
+  - apply cache_okb_ok. vm_compute. reflexivity.
+  - intros d Hd. exact Hd.
+  - apply (sim_wf_full ex_c1 ex_c2 3). apply sim_wfb_ok. vm_compute. reflexivity.
+Qed.
+
+(* (iii) the whole-tree theorem applies: a hash whose digests are text (a prefix-free code over
+   the characters 0 1 2 3, prefixed with aaa), the same tree, every choice of the subset *)
+Fixpoint q_encp (p : positive) : bytes :=
+  match p with
+  | xH => [49]
+  | xO q => 50 :: q_encp q
+  | xI q => 51 :: q_encp q
+  end.
+Definition q_encn (n : N) : bytes := match n with N0 => [48] | Npos p => q_encp p end.
+Definition Hq (b : bytes) : bytes := 97 :: 97 :: 97 :: flat_map q_encn b.
+
+Lemma q_encp_inj p : forall q (r r' : bytes), q_encp p ++ r = q_encp q ++ r' -> p = q /\ r = r'.
+Proof.
+  induction p as [p IH|p IH|]; intros [q|q|] r r' E; cbn [q_encp app] in E; try discriminate E;
+    injection E as E.
+  - destruct (IH _ _ _ E) as [-> ->]. split; reflexivity.
+  - destruct (IH _ _ _ E) as [-> ->]. split; reflexivity.
+  - subst r'. split; reflexivity.
+Qed.
+
+Lemma q_encn_inj n : forall m (r r' : bytes), q_encn n ++ r = q_encn m ++ r' -> n = m /\ r = r'.
+Proof.
+  destruct n as [|p]; intros [|q] r r' E; cbn [q_encn app] in E.
+  - injection E as ->. split; reflexivity.
+  - destruct q; discriminate E.
+  - destruct p; discriminate E.
+  - destruct (q_encp_inj _ _ _ _ E) as [-> ->]. split; reflexivity.
+Qed.
+
+Lemma Hq_inj : H_inj Hq.
+Proof.
+  intros a b E. unfold Hq in E. injection E as E. revert b E.
+  induction a as [|x a IH]; intros [|y b] E; cbn [flat_map] in E.
+  - reflexivity.
+  - destruct y as [|[q|q|]]; discriminate E.
+  - destruct x as [|[q|q|]]; discriminate E.
+  - apply q_encn_inj in E as [-> E2]. rewrite (IH _ E2). reflexivity.
+Qed.
+
+Lemma Hq_has : H_has Hq.
+Proof. intros b. unfold Hq, has_cs. cbn [List.length]. apply N.leb_le. rewrite !Nat2N.inj_succ. lia. Qed.
+
+Lemma q_valid_ascii s : Forall (fun b => b < 128) s -> valid (List.length s) s = true.
+Proof.
+  induction 1 as [|b r Hb _ IH]; [reflexivity|]. cbn [List.length valid].
+  replace (b <? 128) with true by lia. exact IH.
+Qed.
+
+Lemma Hq_text : H_text Hq.
+Proof.
+  intros b.
+  assert (Ha : Forall (fun x => x < 128) (Hq b)).
+  { unfold Hq. repeat (constructor; [lia|]). induction b as [|n b IH]; [constructor|].
+    cbn [flat_map]. apply Forall_app. split; [|exact IH].
+    destruct n as [|p]; cbn [q_encn]; [constructor; [lia|constructor]|].
+    induction p as [p IHp|p IHp|]; cbn [q_encp]; constructor; try lia; try exact IHp. constructor. }
+  split; [exact (q_valid_ascii _ Ha)|].
+  unfold bytes_ok. eapply Forall_impl; [|exact Ha]. intros x Hx. cbv beta in *. lia.
+Qed.
+
+Definition qx_committed := commit_node Hq ex_art0 ex_tree [] Link.
+Definition qx_c1 : cache := match qx_committed with Ok (_, c, _) => c | Err => [] end.
+Definition qx_a1 : artifact := match qx_committed with Ok (_, _, a) => a | Err => ex_art0 end.
+
+Example qx_hyps : cache_okb Hq qx_c1 = true /\ closedb qx_c1 3 qx_a1 = true /\ length qx_c1 = 4%nat.
+Proof. vm_compute. repeat split. Qed.
+
+Example qx_theorem_applies sel :
+  exists a' c2,
+    reenc Hq sel 3 qx_a1 qx_c1 qx_c1 = Some (a', c2) /\ cache_ok Hq c2 /\
+    (forall fuel slot st,
+       checkout_node Hq fuel qx_a1 slot qx_c1 st = checkout_node Hq fuel a' slot c2 st /\
+       status_rel (status_node Hq fuel qx_a1 slot qx_c1) (status_node Hq fuel a' slot c2) /\
+       status_short Hq (S fuel) qx_a1 slot qx_c1 = status_short Hq (S fuel) a' slot c2 /\
+       gather fuel qx_a1 qx_c1 = gather fuel a' c2 /\
+       expand fuel qx_a1 qx_c1 = expand fuel a' c2) /\
+    (forall K st n, all_links K n -> agree_on K qx_c1 c2 ->
+       commit_rel Hq qx_c1 c2 (commit_node Hq qx_a1 n qx_c1 st) (commit_node Hq a' n c2 st)).
+Proof.
+  apply (C20_old_schema_equivalent Hq sel qx_c1 3 qx_a1 Hq_inj Hq_has Hq_text).
+  - apply cache_okb_ok. exact (proj1 qx_hyps).
+  - apply closedb_ok. exact (proj1 (proj2 qx_hyps)).
+Qed.
+
+(* and the rewritten tree really is different: with every manifest in the old schema the root
+   key changes, the cache gains two objects, checkout still gives the committed tree *)
+Example qx_all_old :
+  match reenc Hq (fun _ => true) 3 qx_a1 qx_c1 qx_c1 with
+  | Some (a', c2) =>
+    negb (beqb (a_cs a') (a_cs qx_a1)) && (length c2 =? 6)%nat &&
+    match checkout_node Hq 3 a' None c2 Copy with
+    | Ok (Some t) => node_eqb t ex_tree
+    | _ => false
+    end
+  | None => false
+  end = true.
+Proof. vm_compute. reflexivity. Qed.
+
+(* ------------------------------------------------------------------------------------------ *)
+(* Why the extra hypotheses: two counterexamples                                               *)
+(* ------------------------------------------------------------------------------------------ *)
+
+(* a saturating checker: like sim_artb, but when the depth runs out a directory artifact with a
+   checksum must be absent on both sides; then the relation holds for EVERY fuel *)
+Section SimSat.
+  Variables c1 c2 : cache.
+
+  Fixpoint sim_satb (d : nat) (a1 a2 : artifact) : bool :=
+    shapeb a1 a2 && Bool.eqb (has_cs (a_cs a1)) (has_cs (a_cs a2)) &&
+    if a_isdir a1 then
+      if has_cs (a_cs a1) then
+        match cget c1 (a_cs a1), cget c2 (a_cs a2) with
+        | None, None => true
+        | Some x1, Some x2 =>
+          match d with
+          | O => false
+          | S d' =>
+            match dec_manifest (o_data x1), dec_manifest (o_data x2) with
+            | None, None => true
+            | Some m1, Some m2 =>
+              beqb (m_path m1) (m_path m2) && kidsb (sim_satb d') (m_contents m1) (m_contents m2)
+            | _, _ => false
+            end
+          end
+        | _, _ => false
+        end
+      else true
+    else beqb (a_cs a1) (a_cs a2) &&
+         (if has_cs (a_cs a1) then obj_eqb (cget c1 (a_cs a1)) (cget c2 (a_cs a2)) else true).
+
+  Lemma sim_satb_ok d : forall a1 a2, sim_satb d a1 a2 = true -> forall fuel, sim_art c1 c2 fuel a1 a2.
+  Proof.
+    induction d as [|d IH]; intros a1 a2 E fuel; (destruct fuel as [|f]; [exact I|]);
+      cbn [sim_satb] in E; rewrite sim_art_S;
+      apply andb_true_iff in E as [E E3]; apply andb_true_iff in E as [E1 E2];
+      (split; [exact (shapeb_ok _ _ E1)|]); (split; [exact (Bool.eqb_prop _ _ E2)|]);
+      destruct (a_isdir a1).
+    - intros Hh. rewrite Hh in E3. unfold man_rel.
+      destruct (cget c1 (a_cs a1)) as [x1|], (cget c2 (a_cs a2)) as [x2|]; try discriminate E3. exact I.
+    - apply andb_true_iff in E3 as [Ecs Ec]. apply beqb_eq in Ecs. split; [exact Ecs|].
+      intros Hh. rewrite Hh in Ec. exact (obj_eqb_eq _ _ Ec).
+    - intros Hh. rewrite Hh in E3. unfold man_rel.
+      destruct (cget c1 (a_cs a1)) as [x1|], (cget c2 (a_cs a2)) as [x2|]; try discriminate E3; [|exact I].
+      destruct (dec_manifest (o_data x1)) as [m1|], (dec_manifest (o_data x2)) as [m2|];
+        try discriminate E3; [|exact I].
+      apply andb_true_iff in E3 as [Ep Ek]. apply beqb_eq in Ep. split; [exact Ep|].
+      apply (kidsb_ok (sim_satb d) (sim_art c1 c2 f)); [|exact Ek].
+      intros x y Hxy. exact (IH x y Hxy f).
+    - apply andb_true_iff in E3 as [Ecs Ec]. apply beqb_eq in Ecs. split; [exact Ecs|].
+      intros Hh. rewrite Hh in Ec. exact (obj_eqb_eq _ _ Ec).
+  Qed.
+End SimSat.
+
+(* (1) expand does not test has_cs: without [short_absent] the simulation (which, like every
+   operation of the model, ignores keys shorter than a digest) does not give equal expansions *)
+Definition cx1_c1 : cache := [([1], mkObj (enc_manifest (mkMan [] [])) cache_perms)].
+Definition cx1_a1 : artifact := mkArt [1] [100] true false false.
+Definition cx1_a2 : artifact := mkArt [2] [100] true false false.
+
+Example cex_expand_short_key :
+  (forall fuel, sim_art cx1_c1 [] fuel cx1_a1 cx1_a2) /\
+  expand 2 cx1_a1 cx1_c1 = Some (Dir []) /\ expand 2 cx1_a2 [] = None.
+Proof.
+  split; [apply (sim_satb_ok cx1_c1 [] 1); vm_compute; reflexivity|]. vm_compute. split; reflexivity.
+Qed.
+
+(* (2) commit on top under [sim_art] alone is FALSE.  The recorded child y is a directory whose
+   manifest is absent on both sides (keys X1 / X2).  The commit first stores the file w, whose
+   bytes are a manifest (with a skip-cache child f) and whose digest is X1: now y's old manifest
+   exists on side 1 only, f inherits skip-cache there and the two commits record different trees.
+   [sim_full] (every recorded directory present) excludes this. *)
+Definition cx2_blob : bytes := enc_manifest (mkMan [121] [([102], mkArt [] [102] false false true)]).
+Definition cx2_X1 : bytes := Ht cx2_blob.
+Definition cx2_X2 : bytes := cx2_X1 ++ [48].
+Definition cx2_R1 : bytes := enc_manifest (mkMan [100] [([121], mkArt cx2_X1 [121] true false false)]).
+Definition cx2_R2 : bytes := enc_manifest_old (mkMan [100] [([121], mkArt cx2_X2 [121] true false false)]).
+Definition cx2_c1 : cache := cput [] (Ht cx2_R1) cx2_R1.
+Definition cx2_c2 : cache := cput [] (Ht cx2_R2) cx2_R2.
+Definition cx2_a1 : artifact := mkArt (Ht cx2_R1) [100] true false false.
+Definition cx2_a2 : artifact := mkArt (Ht cx2_R2) [100] true false false.
+Definition cx2_ws : node := Dir [([119], File cx2_blob); ([121], Dir [([102], File [1])])].
+
+Example cex_commit_sim_art_only :
+  (forall fuel, sim_art cx2_c1 cx2_c2 fuel cx2_a1 cx2_a2) /\
+  cache_ok Ht cx2_c1 /\ cache_ok Ht cx2_c2 /\
+  match commit_node Ht cx2_a1 cx2_ws cx2_c1 Link, commit_node Ht cx2_a2 cx2_ws cx2_c2 Link with
+  | Ok (n1, _, b1), Ok (n2, _, b2) => node_eqb n1 n2 = false /\ beqb (a_cs b1) (a_cs b2) = false
+  | _, _ => False
+  end.
+Proof.
+  split; [apply (sim_satb_ok cx2_c1 cx2_c2 2); vm_compute; reflexivity|].
+  split; [apply cache_okb_ok; vm_compute; reflexivity|].
+  split; [apply cache_okb_ok; vm_compute; reflexivity|].
+  vm_compute. split; reflexivity.
+Qed.
+
+Print Assumptions cex_expand_short_key.
+Print Assumptions cex_commit_sim_art_only.
+Print Assumptions qx_theorem_applies.
+Print Assumptions ex_commit_theorem_applies.
